@@ -55,8 +55,9 @@ vars == <<phase, prog, ss, mode, subs, nextSub, cur, inst, missing, excs, att, c
 Comp    == 1..N
 Low(c)  == 1..(c - 1)
 FailKinds == {"skip", "content", "cmd", "timeout", "crash"}
-HardFail  == {"cmd", "timeout", "crash"}        \* "every exception other than the skip signal"
-                                                \* (ContentException IS-A SkipComponent here)
+HardFail  == {"content", "cmd", "timeout", "crash"}   \* "every exception other than the skip signal":
+                                                      \* a content error is a fault of its own in the property's
+                                                      \* quantifier, although ContentException IS-A SkipComponent
 
 -----------------------------------------------------------------------------
 (* Values.  One record shape for everything so that TLC never compares      *)
@@ -110,6 +111,9 @@ RegPts(c)  == IF Kind(c) = "point" THEN {c}
 (* "the specs it implements or is built on"                                *)
 MayFileUnder(c) == {c} \cup DownPts(c) \cup UpPts(c)
 
+(* A seeded component is never run, so its otherwise unused outcome field    *)
+(* chooses what it is seeded with: a value, or None (present, but None).     *)
+SeedVal(c) == IF prog[c].outc = "none" THEN NoneV ELSE SeedV(c)
 Graph  == {c \in Defined : prog[c].ingraph}
 Seeded == {c \in Defined : prog[c].seeded}
 
@@ -174,7 +178,7 @@ StartRun ==
          ELSE subs' \in PermSeqs(ConnComps(Graph))
     /\ nextSub' = 1
     /\ cur' = [w \in 1..(IF mode' = "pool" THEN Workers ELSE 1) |-> 0]
-    /\ inst' = [c \in Comp |-> IF prog[c].seeded THEN SeedV(c) ELSE Absent]
+    /\ inst' = [c \in Comp |-> IF prog[c].seeded THEN SeedVal(c) ELSE Absent]
     /\ missing' = [c \in Comp |-> NoMiss]
     /\ excs' = {} /\ att' = <<>> /\ calls' = <<>>
     /\ UNCHANGED prog
@@ -305,7 +309,7 @@ Spec == Init /\ [][Next]_vars
 -----------------------------------------------------------------------------
 (* Schedule-free denotation: evaluate 1, 2, ..., N in registration order.   *)
 RECURSIVE DenI(_), DenM(_), DenE(_)
-DenI(n) == IF n = 0 THEN [c \in Comp |-> IF prog[c].seeded THEN SeedV(c) ELSE Absent]
+DenI(n) == IF n = 0 THEN [c \in Comp |-> IF prog[c].seeded THEN SeedVal(c) ELSE Absent]
            ELSE LET I == DenI(n - 1) IN
                 IF n \in Attemptable THEN [I EXCEPT ![n] = Eff(I, n).v] ELSE I
 DenM(n) == IF n = 0 THEN [c \in Comp |-> NoMiss]
@@ -329,7 +333,7 @@ DepsBefore ==
     Running => \A i \in DOMAIN att : att[i].c \in Graph =>
                   \A d \in DepSet(att[i].c) \cap Graph : \E j \in 1..(i - 1) : att[j].c = d
 SeedsPreserved ==
-    Running => \A c \in Seeded : inst[c] = SeedV(c) /\ CallsOf(c) = {}
+    Running => \A c \in Seeded : inst[c] = SeedVal(c) /\ CallsOf(c) = {}
 OnlyGraphRuns ==
     Running => \A c \in Comp : CallsOf(c) # {} => c \in Graph /\ prog[c].enabled
 
